@@ -449,6 +449,7 @@ type Probe struct {
 	Msg       sdk.Msg
 	Signer    int    // account index on Chain that signs in tx mode
 	MustFail  string // property id that demands rejection ("" = no demand)
+	AlsoFail  string // a second property that demands the same
 	Signature string // finding signature if it is accepted although MustFail
 }
 
@@ -581,6 +582,10 @@ func (m *PktModel) recvProbes(w *world.World, g Ghost, p packettypes.Packet, at 
 			pr.MustFail, pr.Signature = "C13", "recv-accepted-with-altered-"+alt+roleSuffix(orig.P, q, at)
 		case g.Recv[pid(q)+"@"+at] > 0 || w.C(at).CleanPoint(q.SourceChain, q.DestinationChain) >= q.Sequence:
 			pr.MustFail, pr.Signature = "C02", "recv-replay-accepted:"+label
+			if w.C(at).CleanPoint(q.SourceChain, q.DestinationChain) >= q.Sequence {
+				pr.AlsoFail = "C10"
+				pr.Signature = "recv-accepted-at-or-below-clean-point:" + label
+			}
 		default:
 			return // an honest, fresh message: not a probe
 		}
@@ -709,6 +714,9 @@ func (m *PktModel) ackProbes(w *world.World, g Ghost, p packettypes.Packet, at s
 		orig, isKnown := g.find(q.SourceChain, q.DestinationChain, q.Sequence)
 		pr := Probe{Label: fmt.Sprintf("ack[%s]%s@%s", label, pid(p), at), Chain: at,
 			Msg: &packettypes.MsgAcknowledgement{Packet: q, Acknowledgement: ack, ProofAcked: proof, ProofHeight: ph, Signer: signer}}
+		if w.C(at).CleanPoint(q.SourceChain, q.DestinationChain) >= q.Sequence {
+			pr.AlsoFail = "C10"
+		}
 		switch {
 		case !legit:
 			pr.MustFail, pr.Signature = "C03", "ack-accepted-without-basis:"+label
@@ -794,6 +802,63 @@ func (m *PktModel) ackProbes(w *world.World, g Ghost, p packettypes.Packet, at s
 	return out
 }
 
+// cleanProbes: receive-clean messages that are not backed by the source's clean point must be rejected.
+func (m *PktModel) cleanProbes(w *world.World, g Ghost) []Probe {
+	var out []Probe
+	type ch struct{ src, dst, relay string }
+	seen := map[ch]bool{}
+	for _, r := range g.Pkts {
+		c := ch{r.P.SourceChain, r.P.DestinationChain, r.P.RelayChain}
+		if seen[c] {
+			continue
+		}
+		seen[c] = true
+		for _, atc := range w.Chains {
+			at := atc.Name
+			if at == c.src {
+				continue
+			}
+			signer := atc.Relayer().Addr.String()
+			for n := uint64(1); n <= m.MaxCleanSeq+1; n++ {
+				for _, relay := range []string{c.relay, ""} {
+					cp := packettypes.CleanPacket{Sequence: n, SourceChain: c.src, DestinationChain: c.dst, RelayChain: relay}
+					from := c.src
+					if cp.DestinationChain == at && cp.RelayChain != "" {
+						from = cp.RelayChain
+					}
+					if w.Idx(from) < 0 || from == at {
+						continue
+					}
+					backed := w.C(from).CleanPoint(c.src, c.dst) == n
+					type variant struct {
+						name string
+						key  []byte
+						dh   int64
+					}
+					vs := []variant{
+						{"genuine-key", host.CleanPacketCommitmentKey(c.src, c.dst), 0},
+						{"proof-of-commitment-key", host.PacketCommitmentKey(c.src, c.dst, n), 0},
+						{"proof-of-reverse-channel", host.CleanPacketCommitmentKey(c.dst, c.src), 0},
+						{"stale-height", host.CleanPacketCommitmentKey(c.src, c.dst), -2},
+						{"future-height", host.CleanPacketCommitmentKey(c.src, c.dst), 1},
+					}
+					for _, v := range vs {
+						if backed && v.name == "genuine-key" {
+							continue // the honest message
+						}
+						proof, ph := proofFrom(w, at, w.C(from), v.key)
+						ph = heightPlus(ph, v.dh)
+						out = append(out, Probe{Label: fmt.Sprintf("recvclean[%s]%s>%s/%s#%d@%s", v.name, c.src, c.dst, relay, n, at), Chain: at,
+							Msg:      &packettypes.MsgRecvCleanPacket{CleanPacket: cp, ProofCommitment: proof, ProofHeight: ph, Signer: signer},
+							MustFail: "C10", Signature: "recvclean-accepted-without-source-clean-point:" + v.name})
+					}
+				}
+			}
+		}
+	}
+	return out
+}
+
 // runProbes brings every client in the mounted world up to date (so that genuine proofs at the latest height are
 // verifiable and rejections are not vacuous), then submits the probe menu.
 func (m *PktModel) runProbes(w *world.World, st PState, counters map[string]int) []explore.Finding {
@@ -815,8 +880,11 @@ func (m *PktModel) runProbes(w *world.World, st PState, counters map[string]int)
 			probes = append(probes, m.ackProbes(w, st.G, r.P, c.Name)...)
 		}
 	}
+	if m.Props["C10"] {
+		probes = append(probes, m.cleanProbes(w, st.G)...)
+	}
 	for _, pr := range probes {
-		if pr.MustFail == "" || !m.Props[pr.MustFail] {
+		if pr.MustFail == "" || !(m.Props[pr.MustFail] || (pr.AlsoFail != "" && m.Props[pr.AlsoFail])) {
 			continue
 		}
 		c := w.C(pr.Chain)
@@ -852,8 +920,12 @@ func (m *PktModel) runProbes(w *world.World, st PState, counters map[string]int)
 		}
 		if accepted {
 			counters["probes-accepted"]++
-			fs = append(fs, explore.Finding{Property: pr.MustFail, Signature: pr.Signature,
-				Detail: "message accepted although the reference oracle says it must be rejected" + detail, Probe: pr.Label})
+			for _, prop := range []string{pr.MustFail, pr.AlsoFail} {
+				if prop != "" && m.Props[prop] {
+					fs = append(fs, explore.Finding{Property: prop, Signature: pr.Signature,
+						Detail: "message accepted although the reference oracle says it must be rejected" + detail, Probe: pr.Label})
+				}
+			}
 		}
 	}
 	return fs
